@@ -19,13 +19,18 @@ FLAG_INV = {
     "start_while_eligible": "NewTrialIffNoneEligible", "trial_id_sequence": "IdsInSequence",
     "scheduler_raised": "NeverRaises",
 }
+INV_C14 = ["ObsLevelsMatchPolicy", "PendingOnlyLive", "PendingNotObserved", "ObsOnceAndTrue", "NeverRaises"]
+FLAG_INV.update({"obs_levels": "ObsLevelsMatchPolicy", "pending_not_running": "PendingOnlyLive",
+                 "pending_observed": "PendingNotObserved", "obs_duplicate": "ObsOnceAndTrue", "obs_value": "ObsOnceAndTrue",
+                 "pending_duplicate": "ObsOnceAndTrue"})
+FLAGS_C14 = sorted(f for f, i in FLAG_INV.items() if i in INV_C14)
 FLAGS_C03 = sorted(f for f, i in FLAG_INV.items() if i in INV_C03)
 FLAGS_C04 = sorted(f for f, i in FLAG_INV.items() if i in INV_C04)
 
 
 def base(**kw):
     c = dict(NT=3, LevelsC={1, 2}, MaxT=4, NBr=1, PerBr=False, Type="stopping", IsMin=True, MRA=False, Ckpt=True, NThr=0,
-             Vals={0, 1, 2}, Costs={0}, Faults=False, MaxRun=2)
+             Vals={0, 1, 2}, Costs={0}, Faults=False, MaxRun=2, SD="none", Myopic=False)
     c.update(kw)
     return c
 
